@@ -24,3 +24,25 @@ for line in open(os.path.join(ROOT, "seeded", "INDEX.tsv")):
     }
     json.dump(meta, open(os.path.join(d, "meta.json"), "w"), indent=1)
     print(sid, "ok")
+
+# regenerate the table of DESIGN.md section 10.5
+dp = os.path.join(ROOT, "DESIGN.md")
+d = open(dp).read()
+head = "### 10.5 Seeded changes"
+i = d.index(head)
+rows = []
+for line in open(os.path.join(ROOT, "seeded", "INDEX.tsv")):
+    f = line.rstrip("\n").split("\t")
+    if len(f) == 5:
+        rows.append("| %s | %s | %s | %s |" % (f[0], f[2].replace("|", "\\|"), f[3].replace("|", "\\|"), f[4].replace("|", "\\|")))
+caught_first = sum(1 for r in rows if "first run" in r and "MISSED" not in r)
+text = (head + " — which checks catch which changes\n\n"
+        "Every change below was written by a fresh sub-agent that saw only the property text and a scratch worktree (never /verif),\n"
+        "compiles, passes the 664-test baseline with the same six failures, and comes with a demonstration (`seeded/<id>/`: `patch.diff`,\n"
+        "demo, `md`, `meta.json`). Each was evaluated with `tools/seedrun.py` (an isolated copy of /verif against a worktree of /repo HEAD\n"
+        "with the patch applied - equivalent to `git -C /repo apply; ./check; git -C /repo checkout -- .`, usable while other work builds\n"
+        "against /repo). \"MISSED\" means the quick tier exited 0 on the changed tree; the check was then strengthened in general terms\n"
+        "(a new input family, a new observable, a new translator obligation - never a copy of the demonstration) and re-evaluated.\n"
+        "%d changes so far, %d caught by the first run.\n\n"
+        "| id | change | needs | result |\n|----|--------|-------|--------|\n" % (len(rows), caught_first) + "\n".join(rows) + "\n")
+open(dp, "w").write(d[:i] + text)
